@@ -267,7 +267,7 @@ func (obj *Array) setDim(list List, di, ei int) int {
 		d2 := di + 1
 		for i := 0; i < d; i++ {
 			sub, ok := list[i].(List)
-			if !ok {
+			if !ok && list[i] != nil { // nil is the empty list
 				TypePanic(NewScope(), 0, "array initial-content", list[i], "list")
 			}
 			ei = obj.setDim(sub, d2, ei)
